@@ -313,6 +313,19 @@ def auto_discharge(P, s):
                 # the list must not shrink inside the loop: no length-changing call on it anywhere in the function's loops is checked
                 # by R-SEQ (order-changing operations on order-bearing sequences are reviewed one by one)
                 return 'DC-RANGE-LEN', 'index is the variable of `for i in 0..len` over the length of the very list that is indexed'
+            if tgt is not None:
+                # .. or a dominating rejection shows the indexed list to be at least as long as the range: `if xs.len() < n { bail }`
+                from guards import guards_of, cmp_parts
+                for g_ in guards_of(f):
+                    cp = cmp_parts(g_.pred)
+                    if g_.kind != 'reject' or not cp or not f.dominates(g_.block, s['block']):
+                        continue
+                    op, a_, b_ = cp
+                    if op == 'Gt':
+                        op, a_, b_ = 'Lt', b_, a_
+                    la_ = is_len_of(expand(f, a_))
+                    if op == 'Lt' and la_ is not None and norm_(norm_(strip(la_))) == norm_(norm_(tgt)) and strip(expand(f, b_)) == strip(expand(f, end_)):
+                        return 'DC-RANGE-GUARD', 'index is the variable of `for i in 0..n` and a dominating rejection shows the indexed list to have at least n elements'
     # quote!'s repetition counters (`_i += 1` bounded by the collection being iterated)
     if s['kind'] == 'assert' and s['what'] == 'Overflow:Add' and any(m.startswith('quote::') for m in macros):
         if s['ops'][1] == ('int', 1, 'usize'):
